@@ -161,7 +161,7 @@ def rw_zero_sample(spec, obs):
 def rw_null_systematics(spec, obs):
     s, o = _cp(spec, obs)
     have = {m["name"] for c in s["channels"] for x in c["samples"] for m in x["modifiers"]}
-    if "nullh" in have:
+    if any(n.startswith("null") for n in have):
         return None
     x = next(x for c in s["channels"] for x in c["samples"] if x["name"] != "zero" and sum(x["data"]) > 0 and not x["name"].startswith("sig"))
     x["modifiers"].append({"name": "nullh", "type": "histosys", "data": {"lo_data": list(x["data"]), "hi_data": list(x["data"])}})
